@@ -399,4 +399,25 @@ theorem dense_nodup (refs : List Key) (hnd : refs.Nodup) (d : Key) : ∀ (is : L
   show (match idxsFrom (refs.getD i d) 0 refs with | [] => (-1 : Int) | j :: _ => (j : Int)) = (i : Int)
   rw [hone i hi]
 
+
+/-- `_parse_inter_residue_bonds` on the rows the writer produces returns the written bonds. -/
+theorem parseInter_mk (site : List SiteRow) (bs : List Bond)
+    (hnd : (site.map siteKey).Nodup)
+    (hb : ∀ b ∈ bs, b.i < site.length ∧ b.j < site.length ∧ InterOk b.t) :
+    parseInter site (mkConnRows site 0 bs) = .ok (normBonds bs) := by
+  have hok : ∀ b ∈ bs, InterOk b.t := fun b h => (hb b h).2.2
+  obtain ⟨k1, k2⟩ := keys_mk site bs 0 (fun b h => ⟨(hb b h).1, (hb b h).2.1⟩)
+  have d1 := dense_nodup (site.map siteKey) hnd ⟨"", "", 0, "", ""⟩ (bs.map (·.i))
+    (by intro i hi; obtain ⟨b, hbm, rfl⟩ := List.mem_map.mp hi; simpa using (hb b hbm).1)
+  have d2 := dense_nodup (site.map siteKey) hnd ⟨"", "", 0, "", ""⟩ (bs.map (·.j))
+    (by intro i hi; obtain ⟨b, hbm, rfl⟩ := List.mem_map.mp hi; simpa using (hb b hbm).2.1)
+  simp only [List.map_map] at d1 d2
+  simp only [Function.comp_def] at d1 d2
+  have hp := pick_mk site bs 0 hok
+  simp only [parseInter, filter_cov_mk site bs 0 hok, k1, k2, d1, d2, bind, Except.bind, pure, Except.pure, hp]
+
+theorem parseInter_congr (site site' : List SiteRow) (conn : List ConnRow)
+    (h : site.map siteKey = site'.map siteKey) : parseInter site conn = parseInter site' conn := by
+  simp only [parseInter, h]
+
 end BiotiteModel.C04
